@@ -515,6 +515,7 @@ type VerifWorld struct {
 	reloadIDs map[string]bool // peer ids of the torrents opened by reload ops (their announces are kept apart)
 	dir       string
 	sess      *Session
+	gone      bool // the torrent has been removed from the session (last op of a case)
 	tor       *Torrent
 	t         *torrent
 	sto       *verifStorage
@@ -1308,6 +1309,13 @@ func (w *VerifWorld) observe() string {
 	fmt.Fprintf(&sb, " workers=%s", verifJoin(w.workers()))
 	if t.session.dht != nil {
 		fmt.Fprintf(&sb, " dhtann=%d", map[bool]int{true: 1, false: 0}[t.dhtAnnouncer != nil])
+		// is the torrent waiting for the session's next DHT tick, which announces it to the DHT?
+		t.session.mPeerRequests.Lock()
+		_, queued := t.session.dhtPeerRequests[t]
+		t.session.mPeerRequests.Unlock()
+		if queued {
+			sb.WriteString(" dhtreq=1")
+		}
 	}
 	fmt.Fprintf(&sb, " susp=%d", map[bool]int{true: 1, false: 0}[t.pieceMessagesC.VerifSuspended()])
 	if t.session.ram != nil {
@@ -1375,6 +1383,9 @@ func verifJoin(xs []string) string {
 func (w *VerifWorld) Op(op string) string {
 	if w.dead {
 		return "dead"
+	}
+	if w.gone {
+		return "gone"
 	}
 	name, m := verifKV(op)
 	switch name {
@@ -1525,6 +1536,24 @@ func (w *VerifWorld) Op(op string) string {
 		o := w.observeAfterSettle()
 		return "reload=" + w.reloadCheck() + " " + o
 	case "magnet":
+		if m["gone"] == "1" {
+			// the handle is kept across the removal of the torrent (an RPC call racing with RemoveTorrent): what it
+			// exports then is judged like any other export. Nothing else can be observed afterwards.
+			done := make(chan struct{})
+			go func() { _ = w.sess.RemoveTorrent(w.tor.ID(), true); close(done) }()
+			select {
+			case <-done:
+			case <-time.After(10 * time.Second):
+				w.dead = true
+				return "hang"
+			}
+			w.gone = true
+			_, err := w.tor.Magnet()
+			if err != nil {
+				return "magnet=refused"
+			}
+			return "magnet=ok"
+		}
 		_, err := w.tor.Magnet()
 		v := "ok"
 		if err != nil {
